@@ -1006,4 +1006,156 @@ theorem rinv_run : ∀ (ops : List ROp) (st : RState), RInv st → RInv (st.run 
     simp only [RState.run, List.foldl_cons]
     exact rinv_run rest _ (rinv_step st op h)
 
+/-! ### which spaces are ever marked -/
+
+def ROp.isRebase : ROp → Bool
+  | .addBase _ _ => true
+  | .removeBase _ _ => true
+  | _ => false
+
+/-- only a base change marks spaces: every other operation leaves the marks or clears them -/
+theorem dirty_step_of_not_rebase (st : RState) (op : ROp) (hop : op.isRebase = false) (q : Path)
+    (hd : (st.step op).dirty q = true) : st.dirty q = true := by
+  unfold RState.step at hd
+  cases ha : st.apply op with
+  | none => rw [ha] at hd; exact hd
+  | some st' =>
+    rw [ha] at hd
+    simp only [Option.getD_some] at hd
+    have hcl : ∀ (s : RState) (A : List Path), (s.rederive A).dirty q = true → s.dirty q = true := by
+      intro s A h
+      have h' : (if A.contains q then false else s.dirty q) = true := h
+      split at h'
+      · cases h'
+      · exact h'
+    cases op with
+    | newSpace parent name bases cells =>
+      simp only [RState.apply, RState.newSpace] at ha
+      split at ha
+      · cases ha
+      · split at ha
+        · cases ha
+        · split at ha
+          · cases ha
+          · cases ha; exact hcl _ _ hd
+    | newCells p c =>
+      simp only [RState.apply, RState.newCells] at ha
+      split at ha
+      · cases ha
+      · cases ha; exact hd
+    | delCells p c =>
+      simp only [RState.apply, RState.delCells] at ha
+      split at ha
+      · cases ha
+      · cases ha; exact hd
+    | setRef p n t m =>
+      simp only [RState.apply, RState.setRef] at ha
+      split at ha
+      · cases ha
+      · split at ha
+        · cases ha
+        · split at ha
+          · cases ha
+          · split at ha
+            · cases ha
+            · cases ha; exact hd
+    | delRef p n =>
+      simp only [RState.apply, RState.delRef] at ha
+      split at ha
+      · cases ha
+      · split at ha
+        · cases ha
+        · cases ha; exact hcl _ _ hd
+    | addBase p b => cases hop
+    | removeBase p b => cases hop
+
+theorem no_rebase_no_dirty : ∀ (ops : List ROp) (st : RState), (∀ op ∈ ops, op.isRebase = false) →
+    (∀ q, st.dirty q = false) → ∀ q, (st.run ops).dirty q = false
+  | [], _, _, h, q => h q
+  | op :: rest, st, hops, h, q => by
+    simp only [RState.run, List.foldl_cons]
+    apply no_rebase_no_dirty rest (st.step op) (fun o ho => hops o (List.mem_cons_of_mem _ ho))
+    intro q'
+    cases hd : (st.step op).dirty q' with
+    | false => rfl
+    | true =>
+      have := dirty_step_of_not_rebase st op (hops op (by simp)) q' hd
+      rw [h q'] at this; cases this
+
+/-- a marked space lies strictly below another space: a top-level space is never marked -/
+theorem dirty_depth_step (st : RState) (op : ROp) (h : RShape st) (hd : ∀ q, st.dirty q = true → 2 ≤ q.length)
+    (q : Path) (hq : (st.step op).dirty q = true) : 2 ≤ q.length := by
+  by_cases hr : op.isRebase = false
+  · exact hd q (dirty_step_of_not_rebase st op hr q hq)
+  · unfold RState.step at hq
+    cases ha : st.apply op with
+    | none => rw [ha] at hq; exact hd q hq
+    | some st' =>
+      rw [ha] at hq
+      simp only [Option.getD_some] at hq
+      have key : ∀ (p : Path) (nb : List Path), p ∈ st.ids → st.rebase p nb = some st' → 2 ≤ q.length := by
+        intro p nb hp hreb
+        unfold RState.rebase at hreb
+        dsimp only at hreb
+        split at hreb
+        · cases hreb
+        · split at hreb
+          · cases hreb
+          · cases hreb
+            have hq' : (if (p :: st.subs p).contains q then
+                ((({ st with bases := fun x => if x = p then nb else st.bases x } : RState).rederive (p :: st.subs p)).dirty q)
+                else if strictPrefixIn (p :: st.subs p) q then true
+                else ((({ st with bases := fun x => if x = p then nb else st.bases x } : RState).rederive (p :: st.subs p)).dirty q))
+                = true := hq
+            split at hq'
+            · rename_i hc
+              have : (if (p :: st.subs p).contains q then false else st.dirty q) = true := hq'
+              rw [hc] at this; cases this
+            · rename_i hc
+              split at hq'
+              · rename_i hsp
+                unfold strictPrefixIn at hsp
+                obtain ⟨a, ha1, ha2⟩ := List.any_eq_true.mp hsp
+                simp only [Bool.and_eq_true, decide_eq_true_eq] at ha2
+                have hai : a ∈ st.ids := area_in_ids hp a ha1
+                have hane : a ≠ [] := (h.clean a hai).1
+                have : 1 ≤ a.length := by
+                  cases a with
+                  | nil => exact absurd rfl hane
+                  | cons x xs => simp
+                omega
+              · have : (if (p :: st.subs p).contains q then false else st.dirty q) = true := hq'
+                simp only [hc, Bool.false_eq_true, if_false] at this
+                exact hd q this
+      cases op with
+      | addBase p b =>
+        simp only [RState.apply, RState.addBase] at ha
+        split at ha
+        · cases ha
+        · rename_i hc
+          simp only [Bool.or_eq_true, Bool.not_eq_true', List.contains_eq_mem, decide_eq_false_iff_not,
+            decide_eq_true_eq, not_or, Decidable.not_not] at hc
+          exact key p _ hc.1.1 ha
+      | removeBase p b =>
+        simp only [RState.apply, RState.removeBase] at ha
+        split at ha
+        · cases ha
+        · rename_i hc
+          simp only [Bool.or_eq_true, Bool.not_eq_true', List.contains_eq_mem, decide_eq_false_iff_not,
+            not_or, Decidable.not_not] at hc
+          exact key p _ hc.1 ha
+      | newSpace _ _ _ _ => simp [ROp.isRebase] at hr
+      | newCells _ _ => simp [ROp.isRebase] at hr
+      | delCells _ _ => simp [ROp.isRebase] at hr
+      | setRef _ _ _ _ => simp [ROp.isRebase] at hr
+      | delRef _ _ => simp [ROp.isRebase] at hr
+
+theorem dirty_depth_run : ∀ (ops : List ROp) (st : RState), RInv st → (∀ q, st.dirty q = true → 2 ≤ q.length) →
+    ∀ q, (st.run ops).dirty q = true → 2 ≤ q.length
+  | [], _, _, h, q, hq => h q hq
+  | op :: rest, st, hi, h, q, hq => by
+    simp only [RState.run, List.foldl_cons] at hq
+    exact dirty_depth_run rest (st.step op) (rinv_step st op hi)
+      (fun q' hq' => dirty_depth_step st op hi.toRShape h q' hq') q hq
+
 end MxModel.RelHist
